@@ -43,6 +43,7 @@ type Env struct {
 	entry  map[string]Val // entry values of parameters (for old(x) and x0)
 	sset   map[string]map[string]string
 	callResults map[string][]Val
+	headVars    map[string]Val // loop variables at the loop head (for head(x) in back-edge clauses)
 	frame  *frame
 	headHeap *Heap // heap at the loop head of the current iteration (back-edge clauses)
 	noUnfold bool
@@ -289,6 +290,16 @@ func (g *Gen) tr(e Expr, env *Env) Val {
 			}
 			n := *env
 			n.heap = env.headHeap
+			if len(env.headVars) > 0 {
+				// loop variables (header phis) mean their value at the loop head, not the value on this back edge
+				n.vars = map[string]Val{}
+				for k, v := range env.vars {
+					n.vars[k] = v
+				}
+				for k, v := range env.headVars {
+					n.vars[k] = v
+				}
+			}
 			return g.tr(x.Args[0], &n)
 		}
 		return g.trCall(x, env)
@@ -334,6 +345,8 @@ func (g *Gen) tr(e Expr, env *Env) Val {
 		switch {
 		case base.Ty == tyIntArr:
 			return Val{T: fmt.Sprintf("(select %s %s)", base.T, idx.T), Ty: tyInt}
+		case base.Ty == tyStrArr:
+			return Val{T: fmt.Sprintf("(select %s %s)", base.T, idx.T), Ty: tyStr}
 		case base.Ty == tyIntSet:
 			return Val{T: fmt.Sprintf("(select %s %s)", base.T, idx.T), Ty: tyBool}
 		case base.Ty == tyStrSet:
@@ -773,8 +786,11 @@ func (g *Gen) trCall(x ECall, env *Env) Val {
 	case "elemsOf":
 		v := arg(0)
 		sl, ok := v.Ty.Underlying().(*types.Slice)
+		if ok && sortOf(sl.Elem()) == "Str" {
+			return Val{T: fmt.Sprintf("(select %s (s-arr %s))", g.arr(env.heap, elemArrName("Str"), "(Array Int Str)"), v.T), Ty: tyStrArr}
+		}
 		if !ok || sortOf(sl.Elem()) != "Int" {
-			trFail("elemsOf needs a slice of integers")
+			trFail("elemsOf needs a slice of integers or strings")
 		}
 		return Val{T: fmt.Sprintf("(select %s (s-arr %s))", g.arr(env.heap, elemArrName("Int"), "(Array Int Int)"), v.T), Ty: tyIntArr}
 	case "offOf":
@@ -1082,6 +1098,26 @@ func (g *Gen) trCall(x ECall, env *Env) Val {
 				av := g.tr(a, n)
 				g.emit(fmt.Sprintf("(assert %s)", av.T))
 			}
+		}
+	}
+	if sf.Rec && sf.Quant && !env.noUnfold && mentionsBound(ts) && !g.recSeen["forall:"+sf.Name] {
+		// an application under a quantifier: the definition (and its companion facts) as a triggered axiom
+		g.recSeen["forall:"+sf.Name] = true
+		n := &Env{g: g, vars: map[string]Val{}, heap: &Heap{cur: map[string]string{}}, noUnfold: true, depth: env.depth + 1}
+		var binds, names []string
+		for _, p := range sf.Params {
+			v := "qd!" + p.Name
+			pt := g.W.mustType(p.Type)
+			binds = append(binds, "("+v+" "+sortOf(pt)+")")
+			names = append(names, v)
+			n.vars[p.Name] = Val{T: v, Ty: pt}
+		}
+		qapp := "(sf!" + sf.Name + " " + strings.Join(names, " ") + ")"
+		body := g.tr(sf.Body, n)
+		g.emit(fmt.Sprintf("(assert (forall (%s) (! (= %s %s) :pattern (%s))))", strings.Join(binds, " "), qapp, body.T, qapp))
+		for _, a := range sf.Also {
+			av := g.tr(a, n)
+			g.emit(fmt.Sprintf("(assert (forall (%s) (! %s :pattern (%s))))", strings.Join(binds, " "), av.T, qapp))
 		}
 	}
 	return Val{T: app, Ty: rt}
